@@ -7,8 +7,8 @@ use xeh::prelude::*;
 pub const DEF: PropDef = PropDef {
     id: "C08",
     rule: "(1) systematic: every word of the live dictionary applied to every tuple of argument classes up to arity 2 (exhaustive) and arity 3 (sampled in quick, exhaustive in thorough) from {nil, flags, 0, +-1, 255, 2^63-1, 2^63, 2^64-1, 2^64, i128 min/max, isize min, 0.0, -0.0, 1.5, inf, NaN, empty/short/76-byte non-ASCII/long strings, empty/aligned/unaligned bit-strings, empty/flat/nested vectors, maps, tagged values, values with a hand-made #fmt tag}, \
-on a clone of a booted interpreter with a binary input open and output intercepted; immediate words are followed by the token shapes they parse (names, literals, comments, let patterns, unbalanced closers), also inside definitions, builders and meta blocks. After the call: error formatting (pretty_error, Display/Debug of the error, format_cell and format_cell_safe of the top of the stack) and a follow-up `depth`. \
-(2) token soups: 1-40 tokens from the live dictionary, literals of every type, control words in balanced and unbalanced arrangements and arbitrary UTF-8 fragments, spread over a generated sequence of eval / compile / run / next / rnext / error-formatting / recording calls on one interpreter. Both with limits set (20000 instructions, stack 2000, heap 4096) and in both build profiles. \
+on a clone of a booted interpreter with a binary input open and output intercepted; immediate words are followed by the token shapes they parse (names, literals, comments, let patterns, unbalanced closers), also inside definitions, builders and meta blocks. After the call: error formatting (pretty_error, Display/Debug of the error, format_cell and format_cell_safe of the top of the stack), the debugger views (location_from_current_ip, fmt_opcode over the newest code, var_list) and a follow-up `depth`. \
+(2) token soups (2/3 of the random cases): 1-40 tokens from the live dictionary, literals of every type, control words in balanced and unbalanced arrangements and arbitrary UTF-8 fragments, spread over a generated sequence of eval / compile / run / next / rnext / error-formatting / recording calls on one interpreter. (3) debugger sessions (1/3): a program from a pool (loops, foreach, calls, locals, builders, cursor) is compiled and stepped into with next(), interrupted by failing or unrelated submissions (eval / compile), resumed with run / next / rnext, with recording on or off. All with limits set (20000 instructions, stack 2000, heap 4096) and in both build profiles. \
 Oracle: every call returns; any unwind (caught) or death of the worker process (attributed by re-running the worker with per-case logging) is a violation; argument positions that are allocation sizes (int!/uint! width) are kept <= 4096, an out-of-memory abort is inconclusive. \
 Non-trivial = the call reached a native word with all its operands present or a source of >=3 tokens; distinct = hash of word+classes or of the soup",
     assumptions: &["panic signature = (word, normalised panic message, source file); the external words (exec-piped, read-all, write-all, include, require) and the random words are stubbed", "instruction / stack / heap limits are always set, as the statement requires"],
@@ -89,7 +89,7 @@ fn arg_classes() -> Vec<(&'static str, Cell, bool)> {
 }
 
 /// follow-up templates for immediate words ({w} = the word)
-const TEMPLATES: [&str; 30] = [
+const TEMPLATES: [&str; 32] = [
     "{w}",
     "1 {w}",
     "{w} foo",
@@ -120,6 +120,8 @@ const TEMPLATES: [&str; 30] = [
     "3 0 do {w} loop",
     "{w} zname 1 2 3 {w}",
     "enum E {w} :A {w} endenum",
+    "{w} E 170141183460469231731687303715884105727 = A : B endenum",
+    "{w} E : A -170141183460469231731687303715884105728 = B : C endenum A B C",
 ];
 
 /// words whose last argument is an allocation size
@@ -159,6 +161,14 @@ fn after_calls(xs: &mut Xstate, res: &Xresult) -> Result<(), String> {
             let _ = xs.format_cell_safe(&top);
         }
         let _ = xs.last_error().map(|e| format!("{}", e));
+        // the debugger-facing views
+        let _ = xs.location_from_current_ip().map(|l| format!("{:?}", l));
+        let code = xs.bytecode();
+        let from = code.len().saturating_sub(24);
+        for (i, op) in code.iter().enumerate().skip(from) {
+            let _ = xs.fmt_opcode(i, op);
+        }
+        let _ = xs.var_list().len();
     })?;
     // the interpreter must still be usable
     let r = guard(|| xs.eval("depth"))?;
@@ -318,10 +328,114 @@ pub fn soup_token(ch: &mut Choices) -> String {
     }
 }
 
+/// programs for the debugger-session scenario: paused half-way with next(), interrupted by other submissions
+const SESSION_PROGS: [&str; 12] = [
+    "3 0 do I drop loop",
+    "[ 1 2 3 ] foreach I drop loop",
+    "2 0 do 2 0 do J drop loop loop",
+    "begin 1 drop false until",
+    ": w 1 2 + ; w w drop drop",
+    "[ 1 [ 2 3 ] 4 ] drop",
+    "{ 1 \"a\" } foreach I drop drop loop",
+    ": lw local a local b a b + ; 1 2 lw drop",
+    "|ff 00| open-bitstr u8 drop close-bitstr",
+    "1 2 3 rot over swap drop drop drop drop",
+    "0 var sv 5 ! sv sv drop",
+    "3 case 1 of 10 endof 3 of 30 endof drop 0 endcase drop",
+];
+const SESSION_FAIL: [&str; 8] = ["1 0 /", "drop", "nosuchword", "1 if", "\"s\" 1 +", "I", "#( 1 0 / #)", "[ 1 ] 5 nth"];
+const SESSION_AFTER: [&str; 10] = ["I", "J", "K", "I J K", "[ 1 ] foreach I loop", "] ", "depth", "close-bitstr", "1 local q", "loop"];
+
+/// a debugger-like session: compile a program, step into it, interrupt it with other submissions, go on
+fn session_case(ch: &mut Choices, ctx: &CaseCtx) -> CaseOut {
+    let mut out = CaseOut::default();
+    let mut xs = BASE.with(|b| b.clone());
+    limits(&mut xs);
+    if ch.bool() {
+        xs.set_recording_enabled(true);
+    }
+    let mut log: Vec<String> = Vec::new();
+    let nsteps = 3 + ch.below(8);
+    for _ in 0..nsteps {
+        let r: Result<(), String> = match ch.weighted(&[4, 4, 3, 3, 2, 2]) {
+            0 => {
+                let p = SESSION_PROGS[ch.below(SESSION_PROGS.len())];
+                log.push(format!("compile {:?}", p));
+                guard(|| {
+                    let _ = xs.compile(p);
+                })
+            }
+            1 => {
+                let n = 1 + ch.below(12);
+                log.push(format!("next x{}", n));
+                guard(|| {
+                    for _ in 0..n {
+                        if xs.next().is_err() {
+                            break;
+                        }
+                    }
+                })
+            }
+            2 => {
+                let p = SESSION_FAIL[ch.below(SESSION_FAIL.len())];
+                let ev = ch.bool();
+                log.push(format!("{} {:?}", if ev { "eval" } else { "compile" }, p));
+                guard(|| {
+                    let _ = if ev { xs.eval(p) } else { xs.compile(p) };
+                })
+            }
+            3 => {
+                let p = SESSION_AFTER[ch.below(SESSION_AFTER.len())];
+                let ev = ch.bool();
+                log.push(format!("{} {:?}", if ev { "eval" } else { "compile" }, p));
+                guard(|| {
+                    let _ = if ev { xs.eval(p) } else { xs.compile(p) };
+                })
+            }
+            4 => {
+                log.push("run".into());
+                guard(|| {
+                    let _ = xs.run();
+                })
+            }
+            _ => {
+                let n = 1 + ch.below(12);
+                log.push(format!("rnext x{}", n));
+                guard(|| {
+                    for _ in 0..n {
+                        if xs.rnext().is_err() {
+                            break;
+                        }
+                    }
+                })
+            }
+        };
+        let r = r.and_then(|_| {
+            let res: Xresult = Ok(());
+            after_calls_light(&mut xs, &res)
+        });
+        if let Err(pm) = r {
+            out.fail(format!("panic: {} [session]", pm), log.join("\n"));
+            break;
+        }
+        limits(&mut xs);
+    }
+    out.nontrivial = true;
+    out.class("debugger-session");
+    out.hash = hash_of(&log);
+    if ctx.want_render || out.fail.is_some() {
+        out.render = Some(log.join("\n"));
+    }
+    out
+}
+
 pub fn case(ch: &mut Choices, ctx: &CaseCtx) -> CaseOut {
     let mut out = CaseOut::default();
     if ch.direct {
         return sys_case(ch, ctx);
+    }
+    if ch.chance(1, 3) {
+        return session_case(ch, ctx);
     }
     let mut xs = BASE.with(|b| b.clone());
     limits(&mut xs);
